@@ -1,6 +1,6 @@
 (* Facts about the REGENERATED mir2c template table (coq/gen/Mir2cTable.v). *)
 From Coq Require Import ZArith Bool List String.
-From MirV Require Import Mir.DocSpec Mir.CExpr C02.RowCheck C02.Table C20.Mir2cCheck gen.Mir2cTable.
+From MirV Require Import Base.W64 Mir.DocSpec Mir.CExpr C02.RowCheck C02.Table C20.Mir2cCheck C20.ConstPrint gen.Mir2cTable.
 Import ListNotations.
 
 Lemma mir2c_table_ok : m2c_table_ok mir2c_table = true.
@@ -15,3 +15,25 @@ Proof. exact (m2c_table_ok_total mir2c_table mir2c_table_ok). Qed.
 Lemma mir2c_ld_rows : forall op s d, In (op, [s]) mir2c_table -> ld_twin op = Some d ->
   exists sd, In (d, [sd]) mir2c_table /\ cstmt_eqb sd (ld2d_stmt s) = true /\ row_sound d sd.
 Proof. exact (m2c_table_ok_ld_twin mir2c_table mir2c_table_ok). Qed.
+
+(* ---- constants: the regenerated formats are the modelled ones, every integer operand use converts *)
+Lemma mir2c_fmts_modelled : mir2c_int_fmt <> FmtOther /\ mir2c_uint_fmt <> FmtOther.
+Proof. split; vm_compute; discriminate. Qed.
+
+Lemma mir2c_consts_read_back : forall v,
+  (exists toks t z, print_fmt mir2c_int_fmt v = Some toks /\ c_const toks = Some (t, z) /\ u64 z = u64 v)
+  /\ (exists toks t z, print_fmt mir2c_uint_fmt v = Some toks /\ c_const toks = Some (t, z) /\ u64 z = u64 v).
+Proof.
+  intros v. destruct mir2c_fmts_modelled as [Hi Hu].
+  split; apply print_fmt_reads_back; assumption.
+Qed.
+
+Lemma mir2c_table_lit_safe : table_lit_safe mir2c_table = true.
+Proof. vm_compute. reflexivity. Qed.
+
+Lemma mir2c_operands_convert : forall op l s, In (op, l) mir2c_table -> In s l -> lit_safe_stmt s = true.
+Proof.
+  intros op l s Hin Hs. pose proof mir2c_table_lit_safe as H. unfold table_lit_safe in H.
+  rewrite forallb_forall in H. specialize (H (op, l) Hin). cbn [snd] in H.
+  rewrite forallb_forall in H. exact (H s Hs).
+Qed.
